@@ -28,17 +28,36 @@ type genFileT struct {
 	perBlk []int // records per block
 }
 
-func genFile(r *Run, maxRecs int) *genFileT {
+func genFile(r *Run, maxRecs int) *genFileT { return genFileOpt(r, maxRecs, false) }
+
+// hugePayload: when > 0, genFileOpt(bigBlock) keeps adding records until the first
+// block's payload reaches that many bytes (reads of such a block span several of
+// any reader's internal steps).
+var hugePayload int
+
+// genFileOpt with bigBlock: the first block holds 64 or more records, so that its
+// count is a multi-byte varint (a cut can fall inside it).
+func genFileOpt(r *Run, maxRecs int, bigBlock bool) *genFileT {
+	huge := hugePayload
+	hugePayload = 0
 	for {
-		s := genSchema(r.Rng, SchemaGenCfg{MaxDepth: 1 + r.Rng.Intn(3)})
+		depth := 1 + r.Rng.Intn(3)
+		if bigBlock {
+			depth = 1
+		}
+		s := genSchema(r.Rng, SchemaGenCfg{MaxDepth: depth})
 		g := compatTarget(r.Rng, s)
 		if _, err := schemaCodec(s, g); err != nil {
 			continue
 		}
 		nrec := r.Rng.Intn(maxRecs + 1)
+		if bigBlock {
+			nrec = 64 + r.Rng.Intn(24)
+		}
 		gf := &genFileT{s: s, g: g}
 		var recs [][]byte
 		ok := true
+		size := 0
 		for k := 0; k < nrec; k++ {
 			d := genDatum(r.Rng, s)
 			w, fits := convDatum(s, g, d)
@@ -49,11 +68,18 @@ func genFile(r *Run, maxRecs int) *genFileT {
 			gf.datums = append(gf.datums, d)
 			gf.wants = append(gf.wants, w)
 			recs = append(recs, encodeDatum(s, d, genChoice(r.Rng, s, d)))
+			size += len(recs[k])
+			if huge > 0 && k == nrec-1 && size < huge && nrec < 4000 {
+				nrec++
+			}
 		}
-		if !ok {
+		if !ok || size < huge {
 			continue
 		}
 		codec := codecNames[r.Rng.Intn(3)]
+		if huge > 0 && r.Rng.Intn(3) != 0 {
+			codec = "null"
+		}
 		ct := &Container{SchemaJSON: []byte(schemaJSON(s)), Codec: codec, Sync: randSync(r.Rng)}
 		if codec == "null" && r.Rng.Intn(3) == 0 {
 			ct.Codec = ""
@@ -62,6 +88,12 @@ func genFile(r *Run, maxRecs int) *genFileT {
 			m := 1 + r.Rng.Intn(nrec-k)
 			if r.Rng.Intn(6) == 0 {
 				m = 0
+			}
+			if bigBlock && k == 0 {
+				m = 64 + r.Rng.Intn(nrec-63)
+				if huge > 0 {
+					m = nrec - r.Rng.Intn(3)
+				}
 			}
 			var payload []byte
 			for _, rec := range recs[k : k+m] {
@@ -445,10 +477,20 @@ func containerWithMeta(c *Container, meta map[string][]byte) []byte {
 func runC08(r *Run) {
 	nfiles := r.N(25, 400)
 	for i := 0; i < nfiles; i++ {
-		gf := genFile(r, 6)
+		isHuge := i%12 == 11
+		if isHuge {
+			hugePayload = 8192 + 600 + r.Rng.Intn(3000)
+			if r.Thorough() && i%24 == 23 {
+				hugePayload = 2*32768 + 100 + r.Rng.Intn(5000)
+			}
+		}
+		gf := genFileOpt(r, 6, i%6 == 5)
 		c := gf.ct
 		desc := map[string]any{"schema": schemaJSON(gf.s), "target": gf.g.Coq(), "codec": c.Codec, "blocks": gf.perBlk, "file": hexs(gf.file)}
 		r.Count("codec/" + c.Codec)
+		if i%6 == 5 {
+			r.Count("multi-byte-count")
+		}
 		// boundaries: end of header and of every block
 		okCut := map[int]int{c.HeaderLen: 0}
 		acc := 0
@@ -457,7 +499,7 @@ func runC08(r *Run) {
 			okCut[end] = acc
 		}
 		cuts := make([]int, 0, len(gf.file)+1)
-		if len(gf.file) <= r.N(400, 100000) {
+		if len(gf.file) <= r.N(400, 100000) && i%6 != 5 {
 			for p := 0; p <= len(gf.file); p++ {
 				cuts = append(cuts, p)
 			}
@@ -479,7 +521,24 @@ func runC08(r *Run) {
 					add(end + d)
 				}
 			}
-			for k := 0; k < 300; k++ {
+			nrand := 300
+			if i%6 == 5 {
+				nrand = 25
+			}
+			if isHuge {
+				// inside the first block's stored bytes: every multiple of 512 from their start
+				nrand = 4
+				start := c.BlockEnds[0] - 16 - len(c.Blocks[0].Raw)
+				step := 512
+				if len(c.Blocks[0].Raw) > 40000 {
+					step = 4096
+				}
+				for q := start + step; q < c.BlockEnds[0]-16; q += step {
+					add(q)
+				}
+				r.Count("huge-block")
+			}
+			for k := 0; k < nrand; k++ {
 				add(r.Rng.Intn(len(gf.file) + 1))
 			}
 		}
